@@ -170,13 +170,17 @@ META = {
                  "_assemble/evaluate/strong_form bodies, dunder dispatch, property paths - are regenerated from the algebra "
                  "classes of the source on every run; name resolution of every attribute use; correspondence by running the "
                  "interpretation of the regenerated tables inside Coq against the library",
-    "level_text": "Theorems in coq/props/C14.v, for every coefficient ring, every set of assembled operands and every "
+    "level_text": "Theorems in coq/props/C14.v, for every commutative ring, every set of assembled operands and every "
                   "expression tree built with + - unary- scalar* * @: well-typed trees denote the matrix expression (product "
-                  "= W1 M^-1 W2), in the predicted spaces; the translated guards raise ValueError exactly on incompatible "
-                  "spaces; strong form = M^-1 W; operator*function = projections W c in (range, dual) and is rejected for "
-                  "foreign spaces; every attribute/method name used on self or operands in the five algebra files resolves "
-                  "except three recorded ones; on the pinned tree no sum of potential operators can be built (refuted, "
-                  "with witnesses).",
+                  "= W1 M^-1 W2) in the predicted spaces; the translated guards raise ValueError exactly on incompatible "
+                  "spaces; strong form = M^-1 W; operator*function = projections W c in (range, dual), rejected for foreign "
+                  "spaces; for every conformable tree of Scaled/Sum/Product discrete operators to_dense is the matrix "
+                  "expression and _matvec = to_dense()x, shape guards accept exactly conformable operands, real operator x "
+                  "complex vector splits into real and imaginary parts; blocked pack/unpack are inverse and projection "
+                  "unpacking is right iff sliced by dual dof counts (refuted with witness for the pinned recipe); every "
+                  "attribute/method name used on self or operands in the five algebra files resolves except three recorded "
+                  "ones; potential algebra: positive theorem conditional on the names resolving, and on the pinned tree no "
+                  "sum of potential operators can be built (refuted for all operands).",
     "level_note": "Trusted: Coq kernel; translators/opclasses.py; python's operator protocol as modelled by the dispatch "
                   "tables; SciPy LU behind the abstract inverse mass matrix; the harness. Not proved: dtype promotion, "
                   "discrete-operator transposes, rounding.",
